@@ -20,7 +20,8 @@ M2 (part 2): `src/parser.rs` as fuel-indexed recursion over a token list.
   (tuple type hint, parameters, destructuring; `parse_symbol` un-pops a token it never popped there)
   `break` instead of asserting, and the loops that never terminate there `break`: type arguments at the end
   of the file, type parameters / enum body / struct literal fields when an iteration made no progress.
-  `parse_symbol` itself is unchanged.
+  `parse_symbol` itself is unchanged. parser-fix-struct-literal-keyword.diff: `parse_struct_literal`
+  returns `Invalid` when its name (a keyword on a later line) was not consumed.
   The flag `pn` ("pinned") selects the pre-repair behaviour of exactly these places (a pinned non-terminating loop shows
   as `outOfFuel`); theorems are about `pn = false`, the negative witnesses in
   Props/C03.lean and Props/C01Parse.lean about `pn = true`.
@@ -843,7 +844,13 @@ def parseReturn (toks : Toks) (pn : Bool) : Nat → P PExpr
 def parseStructLiteral (toks : Toks) (pn : Bool) : Nat → P PExpr
   | 0 => outOfFuel
   | fuel + 1 => do
+    let start ← getIdx
     let name ← parseSymbol toks pn
+    -- repair parser-fix-struct-literal-keyword.diff: the name is a keyword on a later line, which
+    -- `parse_symbol` does not consume; the pinned code then re-enters this function on the same token
+    -- from the fields loop without bound (native stack overflow; `outOfFuel` here)
+    if !pn && (← getIdx) == start then pure ⟨.invalid, name.pos⟩
+    else do
     let _ ← requireToken toks "{"
     let fields ← fieldsLoop toks pn fuel []
     let close ← requireToken toks "}"
